@@ -2090,6 +2090,13 @@ let bin_op = function
       | _ -> None)
    | _ -> None)
 
+(** val is_op : (node -> char list option) -> char list -> node -> bool **)
+
+let is_op view op n0 =
+  match view n0 with
+  | Some o -> eqb1 o op
+  | None -> false
+
 (** val replace_expr_noexpand :
     config -> node -> ident_mode -> sp -> ident_kind -> acc -> pstate ->
     (node * acc) * pstate **)
@@ -2344,9 +2351,14 @@ let assign_transform c e p =
                     if is_pat_target lhs
                     then (None, p)
                     else let span = (lo, hi) in
+                         let right =
+                           if is_op bin_op ('+'::[]) rhs
+                           then mk_paren (span_of rhs) rhs
+                           else rhs
+                         in
                          let binary =
                            mk_bin span ('+'::[]) (simple_target_to_expr lhs)
-                             rhs
+                             right
                          in
                          let (o, p1) = binary_transform c binary p in
                          (match o with
@@ -3334,13 +3346,6 @@ let callee_is_expr call =
     let (p1, _) = p0 in
     let (_, callee) = p1 in
     negb ((||) (is_kind KSuper callee) (is_kind KImport callee))
-  | None -> false
-
-(** val is_op : (node -> char list option) -> char list -> node -> bool **)
-
-let is_op view op n0 =
-  match view n0 with
-  | Some o -> eqb1 o op
   | None -> false
 
 type opclass =
@@ -6600,34 +6605,6 @@ let lower_post plus n0 = match n0 with
 let rec lower plus = function
 | Node (t, cs) -> lower_post plus (Node (t, (map (lower plus) cs)))
 
-(** val erase_ok :
-    char list -> node list -> bool -> bool -> node -> node -> bool **)
-
-let erase_ok vp prologue plus modified pin pout =
-  node_eqb_nospan (lower plus (erase vp prologue modified pout))
-    (lower plus pin)
-
-(** val first_diff_nospan : node -> node -> nat list option **)
-
-let rec first_diff_nospan a b =
-  let Node (ta, ca) = a in
-  let Node (tb, cb) = b in
-  if negb (tag_eqb_nospan ta tb)
-  then Some []
-  else let rec go i x y =
-         match x with
-         | [] -> (match y with
-                  | [] -> None
-                  | _ :: _ -> Some (i :: []))
-         | p :: x' ->
-           (match y with
-            | [] -> Some (i :: [])
-            | q :: y' ->
-              (match first_diff_nospan p q with
-               | Some path -> Some (i :: path)
-               | None -> go (S i) x' y'))
-       in go O ca cb
-
 (** val spine_has_optional : node -> bool **)
 
 let rec spine_has_optional = function
@@ -6699,6 +6676,54 @@ let rec spine_has_optional = function
                   | _ :: _ -> false))))
       | _ -> false)
    | _ -> false)
+
+(** val strip_parens : node -> node **)
+
+let rec strip_parens = function
+| Node (t, cs) ->
+  let n' = Node (t, (map strip_parens cs)) in
+  let Node (t0, cs0) = n' in
+  (match t0 with
+   | K (k, _, _) ->
+     (match k with
+      | KParen ->
+        (match cs0 with
+         | [] -> n'
+         | e :: l ->
+           (match l with
+            | [] -> if spine_has_optional e then n' else e
+            | _ :: _ -> n'))
+      | _ -> n')
+   | _ -> n')
+
+(** val erase_ok :
+    char list -> node list -> bool -> bool -> node -> node -> bool **)
+
+let erase_ok vp prologue plus modified pin pout =
+  node_eqb_nospan
+    (strip_parens (lower plus (erase vp prologue modified pout)))
+    (strip_parens (lower plus pin))
+
+(** val first_diff_nospan : node -> node -> nat list option **)
+
+let rec first_diff_nospan a b =
+  let Node (ta, ca) = a in
+  let Node (tb, cb) = b in
+  if negb (tag_eqb_nospan ta tb)
+  then Some []
+  else let rec go i x y =
+         match x with
+         | [] -> (match y with
+                  | [] -> None
+                  | _ :: _ -> Some (i :: []))
+         | p :: x' ->
+           (match y with
+            | [] -> Some (i :: [])
+            | q :: y' ->
+              (match first_diff_nospan p q with
+               | Some path -> Some (i :: path)
+               | None -> go (S i) x' y'))
+       in go O ca cb
 
 (** val norm_post : node -> node **)
 
@@ -7903,6 +7928,32 @@ let rec sites_walk c w n0 =
                                  | _ -> go w cs))
                            | _ -> go w cs)
                         | _ -> go w cs)))))
+         | KOptChain ->
+           (match cs with
+            | [] -> go w cs
+            | n1 :: l ->
+              let Node (t0, cs0) = n1 in
+              (match t0 with
+               | Bln b ->
+                 if b
+                 then (match cs0 with
+                       | [] ->
+                         (match l with
+                          | [] -> go w cs
+                          | n2 :: l0 ->
+                            let Node (t1, ccs) = n2 in
+                            (match t1 with
+                             | K (k0, _, _) ->
+                               (match k0 with
+                                | KCall ->
+                                  (match l0 with
+                                   | [] -> go w ccs
+                                   | _ :: _ -> go w cs)
+                                | _ -> go w cs)
+                             | _ -> go w cs))
+                       | _ :: _ -> go w cs)
+                 else go w cs
+               | _ -> go w cs))
          | KUnary ->
            (match cs with
             | [] -> go w cs
